@@ -238,6 +238,16 @@ class Concat(Expr):
                 [col for col in get_columns_or_name(frame) if col in columns]
                 for frame in self._frames
             ]
+            # Only frames that share their index with the others can be dropped
+            # if none of their columns is selected. Otherwise they still
+            # contribute their rows (and upcast the other columns), so keep one
+            # of their columns as a placeholder.
+            can_drop = self.axis == 1 and self._are_co_alinged_or_single_partition
+            if not can_drop:
+                columns_frame = [
+                    cols if len(cols) > 0 else get_columns_or_name(frame)[:1]
+                    for frame, cols in zip(self._frames, columns_frame)
+                ]
             if all(
                 sorted(cols) == sorted(get_columns_or_name(frame))
                 for frame, cols in zip(self._frames, columns_frame)
@@ -251,7 +261,7 @@ class Concat(Expr):
                     else frame
                 )
                 for frame, cols in zip(self._frames, columns_frame)
-                if len(cols) > 0
+                if len(cols) > 0 or not can_drop
             ]
             result = type(self)(
                 self.join,
